@@ -11,30 +11,52 @@
 use std::cell::RefCell;
 
 struct State {
-    armed: Option<(String, usize)>,
+    /// (site, hits left before it fires, sticky: fires on every later hit as well)
+    armed: Vec<(String, usize, bool)>,
     log: Option<Vec<&'static str>>,
     fired: bool,
+    fired_sites: Vec<&'static str>,
 }
 
 thread_local! {
-    static STATE: RefCell<State> = const { RefCell::new(State { armed: None, log: None, fired: false }) };
+    static STATE: RefCell<State> =
+        const { RefCell::new(State { armed: Vec::new(), log: None, fired: false, fired_sites: Vec::new() }) };
 }
 
-/// Arm `name`: its `nth` hit (1-based) fires once.
+/// Arm `name` only: its `nth` hit (1-based) fires once.
 pub fn arm(name: &str, nth: usize) {
     STATE.with(|s| {
         let mut s = s.borrow_mut();
-        s.armed = Some((name.to_string(), nth.max(1)));
+        s.armed.clear();
+        s.armed.push((name.to_string(), nth.max(1), false));
         s.fired = false;
+        s.fired_sites.clear();
     });
 }
 
-/// Disarm; returns whether the armed failpoint fired.
+/// Arm `name` in addition to what is armed already (a script of forced failures). A `sticky`
+/// failpoint fires on its `nth` hit and on every hit after it.
+pub fn arm_also(name: &str, nth: usize, sticky: bool) {
+    STATE.with(|s| s.borrow_mut().armed.push((name.to_string(), nth.max(1), sticky)));
+}
+
+/// Disarm; returns whether an armed failpoint fired.
 pub fn disarm() -> bool {
     STATE.with(|s| {
         let mut s = s.borrow_mut();
-        s.armed = None;
+        s.armed.clear();
         std::mem::take(&mut s.fired)
+    })
+}
+
+/// Disarm; returns the sites that fired, in order.
+#[must_use]
+pub fn disarm_all() -> Vec<&'static str> {
+    STATE.with(|s| {
+        let mut s = s.borrow_mut();
+        s.armed.clear();
+        s.fired = false;
+        std::mem::take(&mut s.fired_sites)
     })
 }
 
@@ -56,20 +78,28 @@ pub(crate) fn hit(name: &'static str) -> bool {
         if let Some(log) = s.log.as_mut() {
             log.push(name);
         }
-        let fire = match s.armed.as_mut() {
-            Some((n, k)) if n == name => {
-                if *k <= 1 {
-                    true
-                } else {
-                    *k -= 1;
-                    false
-                }
+        let mut fire = false;
+        let mut spent = None;
+        for (i, (n, k, sticky)) in s.armed.iter_mut().enumerate() {
+            if n != name {
+                continue;
             }
-            _ => false,
-        };
+            if *k <= 1 {
+                fire = true;
+                if !*sticky {
+                    spent = Some(i);
+                }
+            } else {
+                *k -= 1;
+            }
+            break;
+        }
+        if let Some(i) = spent {
+            s.armed.remove(i);
+        }
         if fire {
-            s.armed = None;
             s.fired = true;
+            s.fired_sites.push(name);
         }
         fire
     })
